@@ -22,6 +22,7 @@ use vmon::report::{hash64, hash_str, Report};
 use vmon::rng::Rng;
 use vmon::wrapper::{self, Plan, WrapDesc};
 
+#[cfg(not(feature = "noclock"))]
 vmon::install_virtual_clock!();
 
 fn listing(name: &str) -> Option<Vec<String>> {
@@ -100,9 +101,12 @@ struct Scenario {
 }
 
 fn pick_functions(rng: &mut Rng, focus: &str) -> Vec<&'static FnDesc> {
+    // builds without the virtual clock (sanitizers) cannot steer time: no ttl functions there
+    let no_ttl = cfg!(feature = "noclock");
     let cand: Vec<&'static FnDesc> = corpus::FUNCS
         .iter()
         .filter(|d| !d.has_invalidate_on && !d.has_cache_if)
+        .filter(|d| !(no_ttl && d.ttl.is_some()))
         .filter(|d| match focus {
             "C14" => true,
             "C03" => !d.scope_thread && d.limit.is_none() && d.ttl.is_none() && d.max_memory.is_none(),
